@@ -29,7 +29,7 @@ Definition len {A} (l : list A) : Z := Z.of_nat (length l).
 Fixpoint le_bytes (n : nat) (v : Z) : list Z :=
   match n with
   | O => []
-  | S n' => (v mod 256) :: le_bytes n' (v / 256)
+  | S n' => Z.land v 255 :: le_bytes n' (Z.shiftr v 8)      (* v mod 256, v / 256 *)
   end.
 
 Fixpoint le_value (bs : list Z) : Z :=
